@@ -497,6 +497,39 @@ def centroid_tables(rep, F):
         return {C(i): {"x": c[0], "y": c[1]} for i, c in enumerate(cs)}
     for key, ty, arg, n, dom, ref in shapes:
         table(key, ty, arg, itertools.product(dom, repeat=n), ref, env)
+    # R6.14: the same shapes translated by (1e8, -3e8) - `stays accurate at any offset`: the centroid moves with the geometry (tolerance 1e-6)
+    rep.rule("R6.14", "centroid of Point / Line / Triangle / Polygon ring / LineString / MultiPoint / Rect witnesses translated by (1e8, -3e8), numeric evaluation in operation order: the centroid of the untranslated shape plus the offset, within 1e-6")
+    OX, OY = 1.0e8, -3.0e8
+    n14 = 0
+    for key, ty, arg, n, dom, ref in shapes:
+        try:
+            fn = F.impl_method(CT, r"^%s%s<T>$" % (GT, ty), None, "centroid", crates=("geo",))
+            ex = Symex(F, concrete_iters=True, loop_bound=10, inline_crates=("geo", "geo_types"), max_depth=16, max_paths=20000, budget_s=60)
+            paths = [p for p in ex.run(fn, args=[("&", arg)]) if p.kind != "cut"]
+        except (KeyError, Unanalysable) as e:
+            rep.bad("R6.14", "offset-centroid:%s:unanalysable" % key, str(e))
+            continue
+        bad = None
+        cases = list(itertools.product(dom, repeat=n))[::max(1, len(list(itertools.product(dom, repeat=n))) // 40)]
+        for cs in cases:
+            want = ref(cs)
+            tcs = [(c[0] + OX, c[1] + OY) for c in cs]
+            ev = NumEval(F, env(tcs))
+            try:
+                hit = ev.select_path(paths)
+                got = dec(ev.ev(hit[0].ret)) if len(hit) == 1 and hit[0].kind == "ret" else "no-row"
+            except (NoModel, TypeError, KeyError, ValueError, ZeroDivisionError) as e:
+                bad = "cannot be evaluated on %s: %s" % (tcs, e)
+                break
+            ok = (got is None and want is None) or (isinstance(got, tuple) and want is not None and abs(got[0] - (want[0] + OX)) <= 1e-6 and abs(got[1] - (want[1] + OY)) <= 1e-6)
+            if not ok:
+                bad = "centroid(%s %s) = %s; the same shape at the origin has the centroid %s, so %s is expected" % (key, tcs, got, want, None if want is None else (want[0] + OX, want[1] + OY))
+                break
+        if bad:
+            rep.bad("R6.14", "offset-centroid:%s" % key, bad, where=fn.loc())
+        else:
+            n14 += 1
+            rep.ok("R6.14", "offset-centroid:%s[%d witnesses]" % (key, len(cases)))
     # Rect: min <= max
     rects = [(a, b) for a in grid for b in grid if a[0] <= b[0] and a[1] <= b[1]]
     table("Rect", "rect::Rect", ("adt", GT + "rect::Rect", "Rect", (C(0), C(1))), rects, lambda cs: ((cs[0][0] + cs[1][0]) / 2, (cs[0][1] + cs[1][1]) / 2), env)
